@@ -357,7 +357,7 @@ func (f *File) startSegmentIfNeeded(b Box, boxStartPos uint64) {
 			}
 		}
 	case f.tfra != nil:
-		if boxStartPos == uint64(f.tfra.Entries[segIdx].MoofOffset) {
+		if segIdx < len(f.tfra.Entries) && boxStartPos == uint64(f.tfra.Entries[segIdx].MoofOffset) {
 			segStart = true
 		}
 	case (f.fileDecFlags & DecStartOnMoof) != 0:
